@@ -509,3 +509,59 @@ def c35(ctx):
         return None
 
     run_table(ctx, "Lookup", "lookup", judge, select=select, nontrivial=lambda c, o: bool(c["pl"]) or c["re"] != "none" or bool(c["list"]) or c["sre"] != "none", timeout=3000)
+
+
+def c26(ctx):
+    ctx.assumptions = ["ideal encryption under the fixed WebRTC signaling context (WebRtcSignal.tla)",
+                       "'a WebRTC link is only accepted from the signaled peer' is decided through the expected-peer clause of C03 (quic DialSession / ListenSession with the session's peer id); "
+                       "that executeLink passes the session peer is not exercised end to end (a data-channel man in the middle cannot be built offline)"]
+    ctx.rule = ("signal kinds (offer, answer, ICE, empty ICE, offer request) x recipient key x decoding key x tampering class x context; all pairs of distinct id strings up to length 3 "
+                "and seeded real peer-id pairs for the role rule; non-trivial = all")
+
+    def judge(c, o):
+        i, e = c["in"], c["out"]
+        if o.get("panic"):
+            return ("signal:panic:" + i["tamper"], "signal decoding panicked: %s (%s)" % (o["panic"], i))
+        if o["res"] == "other":
+            return ("signal:other-plaintext", "decoding returned a different signal: %s" % i)
+        if (o["res"] == "ok") != e["ok"]:
+            return ("signal:%s:%s" % ("readable" if o["res"] == "ok" else "unreadable", "otherkey" if i["k"] != i["k2"] else i["tamper"] + ":" + i["ctx"]),
+                    "signal %s: decode result %s, spec says ok=%s" % (i, o["res"], e["ok"]))
+        return None
+
+    run_table(ctx, "WebRtcSignal", "signal", judge, driver="webrtc", extra_args=["-mode", "signal"])
+    cases, r = ctx.tlc_table("fn/Opener")
+    conv = [{"a": "".join("ab"[v - 1] for v in c["a"]), "b": "".join("ab"[v - 1] for v in c["b"]), "aopens": c["aopens"]} for c in cases]
+    conv += [{"a": "real:%d" % k, "b": "real:%d" % (k + 1), "aopens": None} for k in range(100 if ctx.tier == "quick" else 2000)]
+    cpath, opath = os.path.join(ctx.tmp, "offerer_cases.json"), os.path.join(ctx.tmp, "offerer_obs.ndjson")
+    json.dump(conv, open(cpath, "w"))
+    ctx.go_run("webrtc", ["-mode", "offerer", "-cases", cpath, "-out", opath])
+    for c, o in zip(conv, vlib.read_ndjson(opath)):
+        ctx.evaluations += 1
+        if o["panic"]:
+            ctx.violation("offerer:panic", o["panic"], c)
+        elif o["ab"] == o["ba"]:
+            ctx.violation("offerer:%s" % ("both" if o["ab"] else "none"), "for peers %r / %r %s side takes the offerer role" % (c["a"], c["b"], "each" if o["ab"] else "neither"), c)
+        elif c["aopens"] is not None and o["ab"] != c["aopens"]:
+            ctx.notes.append("offerer rule differs from lexicographic order for %r/%r (not demanded)" % (c["a"], c["b"]))
+    ctx.cov["offerer_pairs"] = len(conv)
+    ctx.exhaustive = True
+
+
+def c40(ctx):
+    ctx.assumptions = ["class-based model-driven generation (WireGrammar.tla), not coverage-guided fuzzing: totality outside the modelled classes is only sampled (seeded random bytes)",
+                       "allocation is measured as the growth of runtime TotalAlloc during one decoder call (single goroutine apart from the decoder's own pump)"]
+    ctx.rule = ("decoder (14: stream header, PacketConn, Session, solicitation exchange, floodsub packet, pub message, signaling request/response, signed message, envelope, peer id, public/private key, PEM) "
+                "x malformed class (13) x 12 variants; non-trivial = all")
+    slack = 192 * 1024
+
+    def judge(c, o):
+        i = c["in"]
+        if o.get("panic"):
+            return ("panic:%s:%s" % (i["dec"], i["cls"]), "decoder %s panicked on class %s variant %d: %s" % (i["dec"], i["cls"], i["v"], o["panic"]))
+        limit = c["limit"] + slack + 40 * o["len"]
+        if o["alloc"] > limit:
+            return ("alloc:%s:%s" % (i["dec"], i["cls"]), "decoder %s allocated %d bytes for a %d-byte input of class %s (limit %d)" % (i["dec"], o["alloc"], o["len"], i["cls"], limit))
+        return None
+
+    run_table(ctx, "WireGrammar", "wire", judge, timeout=3000)
